@@ -41,7 +41,7 @@ def budget(tier):
 # forwarded; the promise is the same - whatever a bus's dispatch() returned for is processed by that bus.
 from bvt.gen import Profile, scenario  # noqa: E402
 
-P_MULTI = Profile(twin=0.15, min_buses=2, max_buses=3, par=0.2, fwd=0.3, fan=0.25, hist=[None, 50, 50], maxdepth=[1, 2], wild=0.15, raises=0.1, max_actors=3, max_actor_ops=6, actor_ops=['disp', 'disp', 'dispany', 'sleep', 'await', 'await', 'redisp', 'redisp', 'redisp', 'yield'], dual=0.2)
+P_MULTI = Profile(deep_wild=True, twin=0.15, min_buses=2, max_buses=3, par=0.2, fwd=0.3, fan=0.25, hist=[None, 50, 50], maxdepth=[1, 2, 3], wild=0.2, raises=0.1, max_actors=3, max_actor_ops=6, actor_ops=['disp', 'disp', 'dispany', 'sleep', 'await', 'await', 'redisp', 'redisp', 'redisp', 'yield'], dual=0.2)
 
 
 def _run_engine_case(sc):
@@ -59,6 +59,9 @@ def _run_engine_case(sc):
             fin = F.final.get(ev)
             for hi in sorted(F.expected(bus, ev)):
                 if not F.enters.get((bus, ev, hi)):
+                    rows = [r for r in (fin['results'] if fin else []) if r['h'] == f'h{hi}' and r['bus'] == bus]
+                    if rows and rows[0]['st'] == 'error' and rows[0]['err'] == 'RuntimeError' and rows[0]['errkey'] is None:
+                        continue  # refused by the library's recursion guard, recorded as that handler's error: processed, not dropped
                     viol.append(('C14.a', f'event {ev}: dispatch on {bus} returned (trace idx {idxs}) but the bus never ran handler h{hi} for it - accepted, then dropped'))
                     break
             if fin is not None and (fin['status'] != 'completed' or not fin['sig'] or any(r['st'] not in TERMINAL for r in fin['results'])):
